@@ -143,6 +143,9 @@ def run(tier, seed, work, replay):
             HF({"alice": "p1", "bob": "p2"}, "now"), HL("alice", "p1"), HL("alice", "p2"), HL("bob", "p2"),
             HF({"alice": "p3"}, mt), HL("alice", "p1"), HL("alice", "p3"), HL("bob", "p2"),
             HF({"bob": "p1"}, mt), HL("alice", "p3"), HL("bob", "p1"), HF({"alice": "p1", "bob": "p2"}, mt), HL("alice", "p1"), HL("bob", "p1")]})
+    # a configuration with both a password file and a directory (the generated sample file plus the directory section)
+    cases.append({"kind": "htpasswd", "origin": "config-file-and-directory", "steps": [
+        {"op": "cfglogin", "user": "username", "pw": "password"}, {"op": "cfglogin", "user": "alice", "pw": "p1"}]})
     cp = work.path("cases.ndjson")
     E.write_ndjson(cp, cases)
     known = E.load_known()
